@@ -1,9 +1,131 @@
 import ALV.Common.Json
+import ALV.Model.C17
+import ALV.Spec.C17
 namespace ALV.Driver.C17
-open ALV ALV.J
+open ALV ALV.J ALV.C17
 
-/-- stub: the C17 slice is not built yet -/
-def handle (entry : String) (_j : Json) : Except String Json :=
-  throw s!"C17: unknown entry {entry}"
+def tidNum : Tid → Nat
+  | .main => 0
+  | .player i => i + 1
+
+def numTid (n : Nat) : Tid := if n = 0 then .main else .player (n - 1)
+
+def ctlEvt (cfg : Cfg) (k : Ctl) : String := if ctlGo cfg k then "set" else "clear"
+
+/-- name of the pending operation, in the vocabulary of harness/sched.py -/
+def mainLabel (cfg : Cfg) : MPc → Option String
+  | .begin => some "begin"
+  | .pAcq _ => some "mlock.acq"
+  | .pRaiseRel => some "mlock.rel"
+  | .pGoSet i => some s!"go{i}.set"
+  | .pOpen _ => some "pa.open"
+  | .pStart i => some s!"th{i}.start"
+  | .pRel => some "mlock.rel"
+  | .cAcq _ i => some s!"tlock{i}.acq"
+  | .cEvt k i => some s!"go{i}.{ctlEvt cfg k}"
+  | .cRel _ i => some s!"tlock{i}.rel"
+  | .jJoin i => some s!"th{i}.join"
+  | .kHAcq => some "hlock.acq"
+  | .kMAcq => some "mlock.acq"
+  | .kMRel _ => some "mlock.rel"
+  | .kSAcq i => some s!"tlock{i}.acq"
+  | .kSEvt i => some s!"go{i}.{ctlEvt cfg .stop}"
+  | .kSRel i => some s!"tlock{i}.rel"
+  | .kJoin i => some s!"th{i}.join"
+  | .kTerm => some "pa.terminate"
+  | .kAssertRel => some "hlock.rel"
+  | .kHRel _ => some "hlock.rel"
+  | .done => none
+
+def playerLabel (i : Nat) : PPc → Option String
+  | .new => none
+  | .begin => some "begin"
+  | .write => some s!"st{i}.write"
+  | .isSet => some s!"go{i}.is_set"
+  | .stopStream => some s!"st{i}.stop"
+  | .goWait => some s!"go{i}.wait"
+  | .startStream => some s!"st{i}.start"
+  | .finAcq => some s!"tlock{i}.acq"
+  | .closeStream => some s!"st{i}.close"
+  | .tfAcq => some "mlock.acq"
+  | .tfRel => some "mlock.rel"
+  | .finRel => some s!"tlock{i}.rel"
+  | .done => none
+
+/-- pending operations of all unfinished threads: "tid:label:enabled" joined by "," -/
+def pendStr (cfg : Cfg) (s : State) : String :=
+  let m := match mainLabel cfg s.mpc with
+    | some l => [s!"0:{l}:{if enabled cfg s .main then 1 else 0}"]
+    | none => []
+  let ps := (List.range s.players.length).filterMap fun i =>
+    match s.players[i]? with
+    | some p => (playerLabel i p.pc).map fun l =>
+        s!"{i + 1}:{l}:{if enabled cfg s (.player i) then 1 else 0}"
+    | none => none
+  ",".intercalate (m ++ ps)
+
+def evJson : Ev → Json
+  | .playOk _ => Json.arr [Json.str "play", Json.str "ok"]
+  | .playThreadError => Json.arr [Json.str "play", Json.str "RuntimeError"]
+  | .ctlOk => Json.arr [Json.str "ctl", Json.str "ok"]
+  | .skipped => Json.arr [Json.str "skipped", Json.str "ok"]
+  | .joinOk => Json.arr [Json.str "join", Json.str "ok"]
+  | .closeOk alive n => Json.arr [Json.str "close", Json.str "ok",
+      Json.arr (alive.map Json.bool), natToJson n]
+  | .closeAssertionError => Json.arr [Json.str "close", Json.str "AssertionError"]
+
+def sstStr : SSt → String
+  | .unopened => "unopened" | .active => "active" | .stopped => "stopped" | .closed => "closed"
+
+def parseCmd (j : Json) : Except String Cmd := do
+  let a ← getArr j
+  match a with
+  | [Json.str "play", xs] => pure (.play (← getList getInt xs))
+  | [Json.str "pause", i] => pure (.ctl .pause (← getNat i))
+  | [Json.str "resume", i] => pure (.ctl .resume (← getNat i))
+  | [Json.str "stop", i] => pure (.ctl .stop (← getNat i))
+  | [Json.str "join", i] => pure (.join (← getNat i))
+  | [Json.str "close"] => pure .close
+  | _ => throw s!"C17: bad command {j.compress}"
+
+/-- replay with the per-step record `chosen|pending…`; stops at a choice that is not enabled -/
+def replay (cfg : Cfg) : State → List Nat → List String → State × List String × Option Nat
+  | s, [], acc => (s, acc.reverse, none)
+  | s, c :: cs, acc =>
+    let rec_ := s!"{c}|{pendStr cfg s}"
+    match step cfg s (numTid c) with
+    | some s' => replay cfg s' cs (rec_ :: acc)
+    | none => (s, (rec_ :: acc).reverse, some acc.length)
+
+def handle (entry : String) (j : Json) : Except String Json := do
+  match entry with
+  | "sched" =>
+    let wait ← getBool (← field j "wait")
+    let fixed ← getBool (← field j "fixed")
+    let cs ← getNat (← field j "cs")
+    if cs = 0 then throw "cs must be positive"
+    let script ← getList parseCmd (← field j "script")
+    let sched ← getList getNat (← field j "schedule")
+    let cfg : Cfg := { wait := wait, fixed := fixed, cs := cs }
+    let (s, steps, bad) := replay cfg (init script) sched []
+    let outcome :=
+      match bad with
+      | some k => s!"not-enabled@{k}"
+      | none => if allDone s then "done" else if terminal cfg s then "deadlock" else "unfinished"
+    let streams := s.players.map fun p => Json.mkObj [
+      ("written", arr (arr intToJson) p.written), ("state", Json.str (sstStr p.sst)),
+      ("alive", Json.bool (p.pc != .done && p.pc != .new)), ("halting", Json.bool p.halting),
+      ("go", Json.bool p.go)]
+    let audios := script.filterMap fun c => match c with | .play a => some a | _ => none
+    pure <| Json.mkObj [
+      ("model", Json.mkObj [
+        ("steps", arr Json.str steps), ("final", Json.str (pendStr cfg s)),
+        ("outcome", Json.str outcome), ("log", arr evJson s.log), ("streams", Json.arr streams),
+        ("terminates", natToJson s.terminated), ("finished", Json.bool s.finished),
+        ("threads", nats s.threads), ("perr", Json.bool s.perr),
+        ("closedAfter", Json.bool (closedAfter s)), ("noneAlive", Json.bool (noneAlive s))]),
+      ("spec", Json.mkObj [
+        ("chunks", arr (fun a => arr (arr intToJson) (chunksSpec cs a)) audios)])]
+  | _ => throw s!"C17: unknown entry {entry}"
 
 end ALV.Driver.C17
